@@ -728,6 +728,46 @@ func suiteEngine(t *testing.T, cfg cfgT) {
 				}
 			}
 		}
+		if shadow != nil { // C06: one registry, two networks, the network taken from the request context
+			c := newEnvDSN(t, &dbx.DsnT{Name: ee.dsn.Name, Conn: ee.dsn.Conn}, append(append([]driver.TestRegistryOption{}, ee.opts...), driver.VerifWithContextualizer(ctxNet{}))...)
+			bg := context.Background()
+			res := func(r checkgroup.Result) string {
+				er := 0
+				if r.Err != nil {
+					er = 1
+				}
+				return fmt.Sprintf("%s/%d", memTok(r.Membership), er)
+			}
+			for i := 0; i < len(stressQs) && i < 14; i++ {
+				if stressObs[i] == "costly" || stressObs[i] == "hang" || stressObs[i] == "maperr" {
+					continue
+				}
+				its, err := ee.e.reg.ReadOnlyMapper().FromTuple(bg, stressQs[i]) // A's ids: the shadow rows were written with them
+				if err != nil {
+					continue
+				}
+				nets := []*env{ee.e, shadow}
+				if i%2 == 1 {
+					nets = []*env{shadow, ee.e}
+				}
+				for _, own := range nets {
+					got := res(c.reg.PermissionEngine().CheckRelationTuple(context.WithValue(bg, netKey{}, own.nid), its[0], stressRd[i]))
+					want := res(own.reg.PermissionEngine().CheckRelationTuple(bg, its[0], stressRd[i]))
+					v := "same"
+					if got != want {
+						v = fmt.Sprintf("diff shared-registry=%s own-registry=%s", got, want)
+					}
+					k := 1
+					if own == shadow {
+						k = 2
+					}
+					out.emit(fmt.Sprintf("enet %d %s %d", k, fmtTuple(stressQs[i]), stressRd[i]), v)
+					out.stat("enet")
+					cases++
+				}
+			}
+			c.close()
+		}
 		if cfg.extra["probe_env"] == fmt.Sprint(envNo) { // debugging aid: every goal of this environment at small depths
 			for _, ns := range nss[1:] {
 				for _, o := range egObjects {
@@ -829,6 +869,21 @@ func engineCorpus(t *testing.T, out *sink) int {
 				"Doc:x#grp@Doc:y#grp", "Doc:y#grp@Doc:z#grp", "Doc:z#grp@Doc:g#grp", "Doc:g#grp@alice"},
 			checks: []string{"Doc:x#view@alice", "Doc:y#view@alice", "Doc:z#view@alice", "Doc:g#view@alice", "Doc:x#edit@alice", "Doc:y#edit@alice",
 				"Doc:x#both@alice", "Doc:y#both@alice", "Doc:x#grp@alice", "Doc:y#grp@alice", "Doc:z#grp@alice", "Doc:x#view@bob"},
+			depth: depth, gdepth: 100,
+		})
+	}
+	// negation ladders: what a '!' answers when its operand runs out of depth at every distance (directly, below a traversal,
+	// inside an intersection); "unknown" below a '!' stays unknown, it is never inverted
+	for depth := 1; depth <= 5; depth++ {
+		scs = append(scs, sc{
+			nss: doc(ast.Relation{Name: "owner"}, ast.Relation{Name: "blocked"}, ast.Relation{Name: "par"},
+				ast.Relation{Name: "view", SubjectSetRewrite: or(css("owner"), &ast.InvertResult{Child: css("blocked")})},
+				ast.Relation{Name: "fview", SubjectSetRewrite: or(ttu("par", "view"))},
+				ast.Relation{Name: "both", SubjectSetRewrite: and(css("owner"), &ast.InvertResult{Child: css("blocked")})},
+				ast.Relation{Name: "nn", SubjectSetRewrite: or(&ast.InvertResult{Child: &ast.SubjectSetRewrite{Children: ast.Children{&ast.InvertResult{Child: css("blocked")}}}})}),
+			tuples: []string{"Doc:f#blocked@mallory", "Doc:f#owner@alice", "Doc:x#par@Doc:f#", "Doc:f#blocked@G:g#m", "G:g#m@carol"},
+			checks: []string{"Doc:f#view@mallory", "Doc:f#view@alice", "Doc:f#view@bob", "Doc:f#view@carol", "Doc:x#fview@mallory", "Doc:x#fview@bob",
+				"Doc:f#both@alice", "Doc:f#both@mallory", "Doc:f#nn@mallory", "Doc:f#nn@bob"},
 			depth: depth, gdepth: 100,
 		})
 	}
